@@ -298,9 +298,12 @@ def run_lean(mods):
             cur[2] += '\n' + line
     return msgs, p.returncode, p.stdout
 
-def check_generated(results, sy):
-    """generate + elaborate (+ regenerate without failing theorems). -> (tied names->key, failed: key -> detail, axioms problems, wall)"""
-    failed = {}
+def check_generated(results, sy, known_unproved=()):
+    """generate + elaborate (+ regenerate without failing theorems). -> (tied names->key, failed: key -> detail, axioms problems, wall)
+    known_unproved: keys whose equation did not check when the expected list was written; they are not attempted again (they
+    stay in the file as comments and are reported as `known_unproved`), so that the unchanged tree needs ONE build"""
+    failed = {k: 'equation did not check when the expected list was written (--write-expected); not attempted' for k in known_unproved
+              if k in results and results[k]['status'] == 'ok'}
     for attempt in range(3):
         ranges, names, mods, ax_first = generate(results, sy, exclude={k: 'equation no longer checks' for k in failed})
         msgs, rc, raw = run_lean(mods)
@@ -367,15 +370,16 @@ def cmd_check(args):
 
 def cmd_check_inner(args, t0):
     results, crate, sy = analyse(args.src)
-    names, failed, bad_ax, raw = check_generated(results, sy)
+    expected = []; known = []
+    if os.path.exists(EXPECTED_JSON):
+        with open(EXPECTED_JSON) as fh: ej = json.load(fh)
+        expected = ej['functions']; known = ej.get('unproved', [])
+    names, failed, bad_ax, raw = check_generated(results, sy, known)
     # final library build of the (now clean) generated file
     byname = {r['thm']: r for r in results.values()}
     tied = []
     if names is not None:
         tied = [n for n in names if n not in bad_ax]
-    expected = []
-    if os.path.exists(EXPECTED_JSON):
-        with open(EXPECTED_JSON) as fh: expected = json.load(fh)['functions']
     broken = []
     exp_names = set()
     for ex in expected:
@@ -401,9 +405,10 @@ def cmd_check_inner(args, t0):
     new = [n for n in tied if n not in exp_names]
     # failing theorems that are not in the expected list are reported too (they are neither tied nor expected)
     unexpected_fail = [{'fn': results[k]['fn'], 'key': k, 'file': results[k]['file'], 'reason': 'equation does not check (not in expected list)',
-                        'detail': failed[k]} for k in failed if results[k]['thm'] not in exp_names]
+                        'detail': failed[k]} for k in failed if results[k]['thm'] not in exp_names and k not in known]
     out = {'tied': tied, 'broken': broken, 'new': new, 'wall_s': round(time.time() - t0, 1)}
     if unexpected_fail: out['untied_new_failures'] = unexpected_fail
+    if known: out['known_unproved'] = sorted(k for k in known if k in failed)
     if crate.errors: out['frontend_errors'] = ['%s: %s' % e for e in crate.errors]
     bad = forbidden_tokens()
     if bad: out['forbidden_tokens'] = bad
@@ -423,7 +428,9 @@ def cmd_write_expected(args):
         fns.append({'key': r['key'], 'file': r['file'], 'impl': r['impl'], 'fn': r['fn'], 'theorem': n, 'model': r['lean']})
     with open(EXPECTED_JSON, 'w') as fh:
         json.dump({'_doc': 'Rust functions tied by a generated theorem of lean/Bnum/Generated/Deleg.lean on the unchanged tree '
-                           '(written by gen/translate.py --write-expected)', 'functions': fns}, fh, indent=1)
+                           '(written by gen/translate.py --write-expected); `unproved`: translated functions whose equation did not check '
+                           '(untied; not attempted again by --check until the next --write-expected)', 'functions': fns,
+                   'unproved': sorted(failed)}, fh, indent=1)
     print('wrote %s: %d functions; %d failing, %d with axiom problems' % (EXPECTED_JSON, len(fns), len(failed), len(bad_ax)))
     for k, d in failed.items(): print('FAIL', k, d[:300].replace('\n', ' '))
     return 0
@@ -431,6 +438,12 @@ def cmd_write_expected(args):
 def cmd_list(args):
     results, crate, sy = analyse(args.src)
     from collections import Counter
+    if os.path.exists(EXPECTED_JSON):
+        with open(EXPECTED_JSON) as fh: known = json.load(fh).get('unproved', [])
+        for k in known:
+            if k in results and results[k]['status'] == 'ok':
+                results[k]['status'] = 'unproved'
+                results[k]['reason'] = 'translated, but the equation with %s does not check (untied): %s' % (results[k]['lean'], results[k]['rhs'][:120])
     cnt = Counter(r['status'] for r in results.values())
     for key, r in sorted(results.items(), key=lambda kv: (kv[1]['status'], kv[0])):
         if args.status and r['status'] != args.status: continue
